@@ -143,13 +143,21 @@ def check(ctx):
            "`define P <inc/dé\n`include `P\n", "`define Q \"x.svh\" é\n`include `Q\n", "`define E\n`include `E\n",
            "`define A a.svh>\n`include `A\n", "`define B <\n`include `B \n", "`define C <>\n`include `C\n", "`define D \"\"\n`include `D\n",
            "`define F(x) x\n`include `F(é)\n", "`define G  \n`include `G\n", "`define H <é\n`include `H\n", "`define I \"é\n"]
+    # directives written in unusual layouts: blanks, tabs, line breaks and comments wherever the grammar lets white space stand
+    odd += ["`define M(a = 1 , b = 2) a b\n`M()\n", "`define N(a, b = 2 ) a b\n`N(1)\n", "`define O(\n a = 1\n ,\n b\n) a b\n`O(,2)\n",
+            "`define P2( a , b ) a b\n`P2(1,2)\n", "`define Q2(a=\"s\" ) a\n`Q2()\n", "`define R2(a = (1, 2) , b = {3} ) a b\n`R2()\n",
+            "`define S2(a =  ) a\n`S2()\n", "`define T2(a\t=\t1\t,\tb\t=\t2\t)\ta b\n`T2()\n", "`define U2(a = 1 /* c */ , b) a b\n`U2(,1)\n",
+            "`define V2 (x) not_formals\n`V2\n", "`define W2(a = 1\\\n , b = 2\\\n ) a b\n`W2()\n", "`define X2(a=1,b=2 )a b\n`X2( , )\n",
+            "`ifdef  A  \n`elsif\tB\t\n`else  \n`endif  \n", "`undef   X2  \n`undefineall  \n`resetall\t\n", "`timescale  1 ns  /  1 ps  \n",
+            "`line  3  \"f.v\"  1  \n", "`default_nettype   none  \n", "`pragma  protect  begin , end = 1 \n", "`begin_keywords  \"1800-2017\"  \n`end_keywords  \n",
+            "`include   \"nofile.svh\"   \n", "`define Y2(a = 1 ,\r\n b = 2 ) a b\r\n`Y2()\r\n", "`M3 ( 1 , 2 )\n", "`define Z2(a) a\n`Z2 (\n 1\n )\n`Z2( /* c */ )\n"]
     for j, t in enumerate(odd):
         for entry in ("preprocess", "parse_sv"):
             c = Case("o%d%s" % (j, entry)).add("file", hx("top.sv"), hx(t)).add("want", "text").add("run", entry, hx("top.sv"))
             lines = run_harness("api", [c], "c08odd", timeout=120).get(c.id) or []
             ctx.corr_cases += 1
             if crashed(lines) or any(l.startswith("panic") for l in lines):
-                bad = bad or ("sv", t, "`include of a macro-made file name: %s" % (crashed(lines) or [l for l in lines if l.startswith("panic")][0][:120]))
+                bad = bad or ("sv", t, "`include of a macro-made file name / a directive in an unusual layout: %s" % (crashed(lines) or [l for l in lines if l.startswith("panic")][0][:120]))
     # unbounded-looking recursion: every cycle through `include and macro expansion must end in an error value
     cycles = [
         {"top.sv": '`define AGAIN `include "top.sv"\n`AGAIN\n'},
